@@ -106,7 +106,8 @@ func (ds *DomainStore) Iterate(fn func(name Name, domain *Domain) bool) (stopped
 func (ds *DomainStore) IterateSubDomain(parentName Name, fn func(name Name, domain *Domain) bool) (stopped bool) {
 	start := append(ds.prefix, ("." + parentName).toKey()...)
 	end := storage.Rangefix(string(start))
-	return ds.State.IterateRange(
+	// a sub domain created earlier in the same block is not committed yet
+	return ds.State.IterateRangeUncommitted(
 		start,
 		end,
 		true,
